@@ -11,7 +11,7 @@ ENGINE = "progspace"
 TECHNIQUE = "bounded exhaustive exploration: every struct/union of <= 2 (quick) / <= 3 (thorough) members over a 14-type member alphabet incl. bit-fields, x compiler x DWARF version; oracle = the compiler itself (sizeof / offsetof / bit-field scan in a probe executable built with the same flags)"
 RULE = ("member alphabet {char, short, int, long, double, int*, int[2], enum, nested struct, int:1, int:7, unsigned:17, long:33, char:3} (+ a zero-width int:0 separator variant); every struct with 1..n members and every "
         "2-member union, each reached from an exported function through a pointer, ~60 per binary; compilers gcc and clang, DWARF default (4 and 5 in the thorough tier); plus C++ classes with bases / virtual / empty base and "
-        "two translation units defining different structs of the same name. Oracle: abidw's size-in-bits equals sizeof*8 and every layout-offset-in-bits equals offsetof*8 (bit-fields: position of the lowest bit set when the "
+        "two translation units defining different structs of the same name (different sizes; and four variants with the same size, member names and member types but different member offsets: bit-field widths, member alignment, packed member). Oracle: abidw's size-in-bits equals sizeof*8 and every layout-offset-in-bits equals offsetof*8 (bit-fields: position of the lowest bit set when the "
         "field alone is all-ones) as printed by a probe executable compiled from the same definitions with the same compiler. Non-trivial: every aggregate with >= 2 members or a bit-field.")
 TEXT = "Exhaustive over the stated alphabet and member count; the reference layout comes from the compiler, never from a hand-written model."
 NOTE = "x86-64 only; little-endian bit numbering; members of anonymous sub-aggregates are checked through their own named fields only."
@@ -43,6 +43,15 @@ int main() {
   printf("S V1 %zu\n", sizeof(V1)); printf("M V1 v %zu\n", offsetof(V1, v) * 8);
   return 0; }
 '''
+
+
+# (name, members of unit a, members of unit b, [(member, is bit-field)]): same size, names and types - only offsets differ
+TWOTU_OFFSET_VARIANTS = [
+    ("bitfield-widths-3-5-vs-4-4", "int a:3; int b:5; int c;", "int a:4; int b:4; int c;", [("a", True), ("b", True), ("c", False)]),
+    ("bitfield-widths-33-7-vs-30-10", "long x:33; long y:7; char z;", "long x:30; long y:10; char z;", [("x", True), ("y", True), ("z", False)]),
+    ("member-alignment", "char a; char b; int c;", "char a; char b __attribute__((aligned(2))); int c;", [("a", False), ("b", False), ("c", False)]),
+    ("packed-member", "char a; short b; char c; int d;", "char a; short b __attribute__((packed)); char c; int d;", [("a", False), ("b", False), ("c", False), ("d", False)]),
+]
 
 
 def prepare(ctx):
@@ -170,7 +179,52 @@ def evaluate(ctx, e):
         ok = got2 == want
         if not ok:
             fails.append({"sig": "C15 abidw mismatch:same-named-structs %s" % cfg, "what": "two TUs define different 'struct Same': recorded %s, expected %s" % (got2, want)})
-        return {"evaluations": 2, "nontrivial_count": 2, "outcomes": {"match" if ok else "mismatch": 1}, "failures": fails, "sample": {"two_tu": cfg}}
+        n2 = 2
+        outs = {"match" if ok else "mismatch": 1}
+        # same name, same size, same member names and types, different OFFSETS in the two units (bit-field widths, alignment):
+        # each unit's interface must see the layout the compiler used for that unit
+        for vname, da, db, members in TWOTU_OFFSET_VARIANTS:
+            srcs = {}
+            for tag, body in (("a", da), ("b", db)):
+                srcs[tag] = "struct Same { %s };\nint g%s(struct Same* p) { return p != 0; }\n" % (body, tag)
+            lib = cbuild.compile_units([("a.c", srcs["a"], fl), ("b.c", srcs["b"], fl)], out_name="libt.so", link_flags=["-Wl,-soname,libt.so"], cc=e["cc"], tag="c15v")
+            rc, doc, err = pc.run(ctx, "abidw", [lib])
+            if rc != 0:
+                raise core.HarnessError("abidw failed on two-TU variant %s: %s" % (vname, err[-200:]))
+            d = abixml.Doc(doc)
+            for tag, body in (("a", da), ("b", db)):
+                lines = ["#include <stdio.h>", "#include <stddef.h>", "#include <string.h>", "struct Same { %s };" % body, "int main(void) {", 'printf("S %zu\\n", sizeof(struct Same) * 8);']
+                for m, isbf in members:
+                    if isbf:
+                        lines.append('{ struct Same x; unsigned char* p = (unsigned char*)&x; memset(&x, 0, sizeof x); x.%s = -1; size_t k; long pos = -1; '
+                                     'for (k = 0; k < sizeof x * 8; ++k) if (p[k / 8] & (1u << (k %% 8))) { pos = (long)k; break; } printf("M %s %%ld\\n", pos); }' % (m, m))
+                    else:
+                        lines.append('printf("M %s %%zu\\n", offsetof(struct Same, %s) * 8);' % (m, m))
+                lines.append("return 0; }")
+                exe = cbuild.compile_units([("p.c", "\n".join(lines) + "\n", fl)], out_name="probe", kind="exe", cc=e["cc"], tag="c15v")
+                r = subprocess.run([exe], stdout=subprocess.PIPE, env=cbuild.ENV)
+                want_size, want = None, {}
+                for line in r.stdout.decode().splitlines():
+                    q = line.split()
+                    if q[0] == "S":
+                        want_size = int(q[1])
+                    else:
+                        want[q[1]] = int(q[2])
+                fn = d.functions().get("g" + tag)
+                n2 += 1
+                got = None
+                if fn is not None:
+                    ptr = d.by_id.get(fn.find("parameter").attrib["type-id"])
+                    cl = d.by_id.get(ptr.attrib["type-id"]) if ptr is not None else None
+                    if cl is not None:
+                        got = dict((m, o) for m, o, t in d.members(cl))
+                if got != want:
+                    fails.append({"sig": "C15 abidw mismatch:same-named-structs-offsets %s %s" % (vname, cfg),
+                                  "what": "two TUs define 'struct Same' with different member offsets (%s): the type of g%s()'s parameter is recorded with offsets %s, the compiler used %s in that unit" % (vname, tag, got, want)})
+                    outs["mismatch"] = outs.get("mismatch", 0) + 1
+                else:
+                    outs["match"] = outs.get("match", 0) + 1
+        return {"evaluations": n2, "nontrivial_count": n2, "outcomes": outs, "failures": fails, "sample": {"two_tu": cfg}}
     else:
         units = [(i, _unit(k, ms, z).rename(str(i))) for i, (k, ms, z) in enumerate(e["combos"])]
         lib = ps.build_pack(units, cc=e["cc"], flags=fl)
